@@ -42,7 +42,7 @@ class Checker:
                         found=f"raises {e} for every valid symbolic input",
                         expected="returns a result", nontrivial=True,
                         note=None if st == BAD else "raised outside the functions this property is anchored in, or an exception class "
-                                                    "typical of a modelling gap: reported as inconclusive")
+                                                    f"typical of a modelling gap: reported as inconclusive [{str(e)[:160]}]")
             return None
         except (RecursionError,) as e:
             self.run.ob(rule, where, construct, what, UNK, note=f"analysis did not terminate: {e}")
